@@ -6,11 +6,11 @@
 package c11
 
 import (
-	"io"
 	"context"
 	"database/sql"
 	"errors"
 	"fmt"
+	"io"
 	"net/http"
 	"path/filepath"
 	"sync/atomic"
@@ -34,7 +34,14 @@ type Case struct {
 	Chunk    int    `json:"chunk,omitempty"` // durable-streams chunk bytes
 	N        int    `json:"n"`
 	Start    int    `json:"start"`
-	Fill     string `json:"fill,omitempty"` // "" = appended directly to the store; "bus" = published through the replaying bus; "mixed" = first half published, rest appended by another writer afterwards
+	// Nested (fault "none"): inside the callback of its second event the
+	// replay's consumer runs a complete replay of its own over the same bus
+	// (a projection that needs the whole log to interpret one event).  Both
+	// replays deliver what a replay running alone delivers.  Not on the
+	// durable-streams store, whose replays are subject to the listed
+	// batch-smaller-than-chunk finding.
+	Nested bool   `json:"nested,omitempty"`
+	Fill   string `json:"fill,omitempty"` // "" = appended directly to the store; "bus" = published through the replaying bus; "mixed" = first half published, rest appended by another writer afterwards
 	// Fault: none cberr cancel-before cancel-at store-read store-row sql-next
 	// sql-query http-err http-500 badrow; cancel-in-read cancels the context
 	// while the K-th store read (page, row fetch or HTTP request) is in flight
@@ -314,6 +321,7 @@ func Run(c *Case) *vkit.Outcome {
 	var got []int
 	var gotOffsets []eventbus.Offset
 	calls := 0
+	nestedBad, nestedRan := "", false
 	err := bus.Replay(ctx, from, func(se *eventbus.StoredEvent) error {
 		calls++
 		var e Ev
@@ -322,6 +330,25 @@ func Run(c *Case) *vkit.Outcome {
 		}
 		got = append(got, e.I)
 		gotOffsets = append(gotOffsets, se.Offset)
+		if c.Nested && c.Fault == "none" && c.Config != "durable" && calls == 2 {
+			var inner []int
+			nerr := bus.Replay(context.Background(), eventbus.OffsetOldest, func(ne *eventbus.StoredEvent) error {
+				var x Ev
+				if jsonUnmarshal(ne.Data, &x) != nil {
+					x.I = -999
+				}
+				inner = append(inner, x.I)
+				return nil
+			})
+			okInner := nerr == nil && len(inner) == c.N
+			for j, v := range inner {
+				okInner = okInner && v == j+1
+			}
+			if !okInner {
+				nestedBad = fmt.Sprintf("a replay started from inside the callback of event %d delivered %v (err %v); the log holds events 1..%d", e.I, inner, nerr, c.N)
+			}
+			nestedRan = true
+		}
 		if c.Fault == "cberr" && calls == c.K {
 			return errCallback
 		}
@@ -349,6 +376,13 @@ func Run(c *Case) *vkit.Outcome {
 	bus.Wait()
 
 	desc := fmt.Sprintf("%+v", *c)
+	if nestedBad != "" {
+		o.Failf("", "%s: %s", desc, nestedBad)
+		return o
+	}
+	if nestedRan {
+		o.Class("replay_started_from_inside_a_replay_callback")
+	}
 	// R1: gap-free, repeat-free, in-order prefix of log[start:]
 	for j, v := range got {
 		want := c.Start + j + 1
